@@ -642,7 +642,8 @@ class Evaluator:
                         'round', 'tuple', 'list', 'sorted', 'reversed', 'object', 'super', 'str', 'hasattr',
                         'getattr', 'print', 'type', 'sum', 'zip', 'ValueError', 'TypeError', 'RuntimeError',
                         'AttributeError', 'ArithmeticError', 'ZeroDivisionError', 'KeyError', 'RuntimeWarning',
-                        'UserWarning', 'next', 'any', 'all', 'map', 'filter', 'dict', 'set', 'iter', 'id')
+                        'UserWarning', 'next', 'any', 'all', 'map', 'filter', 'dict', 'set', 'iter', 'id', 'setattr', 'delattr',
+                        'callable', 'frozenset', 'divmod', 'pow', 'repr', 'format', 'LookupError', 'IndexError', 'Exception')
             if name in builtins:
                 return ExtRef('builtins', name)
             raise Undecided(f'unresolved name {name} in {module.path}')
